@@ -1,6 +1,497 @@
 package main
 
-import "verifharness/internal/vh"
+// Correspondence of the Lean model (lean/YouVerif/C06/Model.lean, driver drv_c06) with the real code, on the blocks the
+// chain oracle has just executed:
+//
+//	RP   blockRewards + rewardsToPool: the real functions run in isolation (hook VerifC06RewardsToPool) on a fresh StateDB at
+//	     the block's parent with the block's GasRewards; the model gets the same statistics twice, with two different
+//	     iteration orders for each of the two map loops; subsidy, proposer reward, residue and the three role pools must
+//	     equal Go's in both.
+//	DR   distributeRewards (hook VerifC06DistributeRewards) on a fresh StateDB: role pools after, reward per validator,
+//	     forced-settlement set; two orders of the final map loop.
+//	SL   slashing vs replaySlashing: the builder's pool before EndBlock (round, resolvable signer) and the validators of
+//	     the parent state go to the model; confirmed ids (= header.SlashData), pending ids (= pool afterwards), and
+//	     token/offline/expelled/expelExpired of every validator after the block must equal Go's; the model also replays
+//	     its SlashData with a foreign head and must print replay=same.
+//	SORT GetValidators order (sync.Map.Range order is arbitrary) vs the model's sort.
+//
+// A disagreement is written as an "L" replay (the driver line + Go's answer).
 
-func correspond(c *vh.Ctx, drv *vh.Driver, s *session, br *blockRec, scenario []string) error { return nil }
-func replayLean(c *vh.Ctx, body []string) (bool, string)                                       { return false, "" }
+import (
+	"fmt"
+	"math/big"
+	"sort"
+	"strings"
+
+	"github.com/youchainhq/go-youchain/common"
+	"github.com/youchainhq/go-youchain/core/state"
+	"github.com/youchainhq/go-youchain/crypto"
+	"github.com/youchainhq/go-youchain/params"
+	"github.com/youchainhq/go-youchain/rlp"
+	"github.com/youchainhq/go-youchain/staking"
+
+	"verifharness/cmd/c07/chainkit"
+	"verifharness/internal/vh"
+)
+
+var roles = []params.ValidatorRole{params.RoleChancellor, params.RoleSenator, params.RoleHouse}
+
+func statNums(st *state.ValidatorsStat) string {
+	var f []string
+	for _, r := range roles {
+		s := st.GetByRole(r)
+		f = append(f, fmt.Sprint(s.GetCount()), s.GetOnlineStake().String(), s.GetRewardsDistributable().String())
+	}
+	return strings.Join(f, " ")
+}
+
+func randOrder(r *vh.RNG, keys string) string {
+	b := []byte(keys)
+	for i := len(b) - 1; i > 0; i-- {
+		j := r.Intn(i + 1)
+		b[i], b[j] = b[j], b[i]
+	}
+	if len(b) == 0 {
+		return "-"
+	}
+	return string(b)
+}
+
+func presentRoles(st *state.ValidatorsStat) string {
+	s := ""
+	for i, r := range roles {
+		if st.GetByRole(r).GetCount() > 0 {
+			s += fmt.Sprint(i + 1)
+		}
+	}
+	return s
+}
+
+// statConsistent: the statistics agree with the validator records (property C08's invariant). distributeRewards calls
+// logging.Crit (process exit) otherwise, so the isolated call is made only on consistent states.
+func statConsistent(st *state.StateDB, stat *state.ValidatorsStat) bool {
+	cnt := map[params.ValidatorRole]uint64{}
+	stk := map[params.ValidatorRole]*big.Int{}
+	for _, r := range roles {
+		stk[r] = new(big.Int)
+	}
+	for _, v := range st.GetValidators().List() {
+		if _, ok := stk[v.Role]; !ok {
+			return false
+		}
+		sum := new(big.Int).Set(v.SelfStake)
+		for _, d := range v.Delegations {
+			sum.Add(sum, d.Stake)
+		}
+		if sum.Cmp(v.Stake) != 0 {
+			return false
+		}
+		if v.IsOnline() {
+			cnt[v.Role]++
+			stk[v.Role].Add(stk[v.Role], v.Stake)
+			if v.Stake.Sign() == 0 && v.Role != params.RoleHouse {
+				return false
+			}
+		}
+	}
+	for _, r := range roles {
+		s := stat.GetByRole(r)
+		if s.GetCount() != cnt[r] || s.GetOnlineStake().Cmp(stk[r]) != 0 {
+			return false
+		}
+	}
+	return true
+}
+
+type leanFail struct {
+	line, goOut, leanOut string
+}
+
+func askBoth(drv *vh.Driver, mk func(o ...string) string, goOut string, orders [][]string) (*leanFail, error) {
+	for _, o := range orders {
+		line := mk(o...)
+		out, err := drv.Ask(line)
+		if err != nil {
+			return nil, err
+		}
+		if out != goOut {
+			return &leanFail{line, goOut, out}, nil
+		}
+	}
+	return nil, nil
+}
+
+func correspond(c *vh.Ctx, drv *vh.Driver, s *session, br *blockRec, scenario []string) error {
+	if br.block == nil {
+		return nil
+	}
+	res := c.Res
+	report := func(kind string, f *leanFail) {
+		rp := vh.WriteReplay(c.ReplayDir, "C06", fmt.Sprintf("corr-%s-%d-%d", kind, len(res.Failures), br.num), c.Seed,
+			[]string{"correspondence: Lean model and Go disagree on " + kind, "go:   " + f.goOut, "lean: " + f.leanOut,
+				"(the line below is what the driver was asked; the Go side of an L replay is re-derived only by re-running the chain)"},
+			[]string{"L " + f.line, "G " + f.goOut})
+		res.Fail("correspondence", "", kind+": go="+f.goOut+" lean="+f.leanOut, rp)
+	}
+	node := s.w.kit.B
+	bc := node.BC
+	blk := br.block
+	yp, err := bc.VersionForRound(blk.NumberU64())
+	if err != nil {
+		return err
+	}
+	sample := c.R.Chance(50) || br.periodEnd || br.nEv > 0
+
+	// ---- RP -------------------------------------------------------------------------------------------------------
+	if sample {
+		st, _, err := parentState(node, blk, false)
+		if err != nil {
+			return err
+		}
+		stat, _ := st.GetValidatorsStat()
+		proposer := st.GetValidatorByMainAddr(blk.Coinbase())
+		if stat != nil && proposer != nil {
+			pool := st.GetBalance(yp.RewardsPoolAddress)
+			before := statNums(stat)
+			residue := stat.GetRewardResidue()
+			keys := presentRoles(stat)
+			propBefore := new(big.Int).Set(proposer.RewardsTotal)
+			hdr := blk.Header()
+			hdr.Subsidy = new(big.Int)
+			v5 := 0
+			if hdr.CurrVersion >= params.YouV5 {
+				v5 = 1
+			}
+			goOut := ""
+			func() {
+				defer func() {
+					if r := recover(); r != nil {
+						goOut = "crash"
+					}
+				}()
+				staking.VerifC06RewardsToPool(bc, yp, st, hdr)
+				after, _ := st.GetValidatorsStat()
+				p2 := st.GetValidatorByMainAddr(blk.Coinbase())
+				goOut = fmt.Sprintf("ok %s %s %s %s %s %s", hdr.Subsidy, new(big.Int).Sub(p2.RewardsTotal, propBefore), after.GetRewardResidue(),
+					after.GetByRole(roles[0]).GetRewardsDistributable(), after.GetByRole(roles[1]).GetRewardsDistributable(), after.GetByRole(roles[2]).GetRewardsDistributable())
+			}()
+			mk := func(o ...string) string {
+				return fmt.Sprintf("RP %d %d %d %d %d %d %s %s %s %s %d %s %s", v5, yp.RewardsDistRatio[roles[0]], yp.RewardsDistRatio[roles[1]], yp.RewardsDistRatio[roles[2]],
+					yp.SubsidyThreshold, yp.SubsidyCoeff, pool, hdr.GasRewards, before, residue, int(proposer.Role), o[0], o[1])
+			}
+			f, err := askBoth(drv, mk, goOut, [][]string{{randOrder(c.R, keys), randOrder(c.R, keys)}, {randOrder(c.R, keys), randOrder(c.R, keys)}})
+			if err != nil {
+				return err
+			}
+			res.TracesVsImpl++
+			res.Dist("lean-RP-" + strings.Fields(goOut)[0])
+			if f != nil {
+				report("rewardsToPool", f)
+			}
+		}
+	}
+
+	// ---- DR -------------------------------------------------------------------------------------------------------
+	if sample {
+		st, _, err := parentState(node, blk, false)
+		if err != nil {
+			return err
+		}
+		stat, _ := st.GetValidatorsStat()
+		if stat != nil && statConsistent(st, stat) {
+			var vals []*state.Validator
+			hdr := blk.Header()
+			if hdr.CurrVersion >= params.YouV5 {
+				vals = st.GetValidatorsForUpdate()
+			} else {
+				vals = st.GetValidators().List()
+			}
+			type vb struct {
+				addr  common.Address
+				total *big.Int
+			}
+			var befores []vb
+			var vf []string
+			for _, v := range vals {
+				befores = append(befores, vb{v.MainAddress(), new(big.Int).Set(v.RewardsTotal)})
+				off := 0
+				if v.IsOffline() {
+					off = 1
+				}
+				vf = append(vf, fmt.Sprintf("%d %s %d %d", int(v.Role), v.Stake, off, v.RewardsLastSettled))
+			}
+			before := statNums(stat)
+			tot := stat.GetStakeByKind(params.KindValidator)
+			keys := presentRoles(stat)
+			gap := yp.MaxRewardsPeriod * yp.StakingTrieFrequency
+			goOut := ""
+			var settled map[common.Address]bool
+			func() {
+				defer func() {
+					if r := recover(); r != nil {
+						goOut = "crash"
+					}
+				}()
+				set, e := node.Staking.VerifC06DistributeRewards(bc, yp, st, hdr)
+				if e != nil {
+					goOut = "err"
+					return
+				}
+				settled = map[common.Address]bool{}
+				for _, a := range set {
+					settled[a] = true
+				}
+				after, _ := st.GetValidatorsStat()
+				goOut = fmt.Sprintf("ok %s %s %s", after.GetByRole(roles[0]).GetRewardsDistributable(), after.GetByRole(roles[1]).GetRewardsDistributable(), after.GetByRole(roles[2]).GetRewardsDistributable())
+			}()
+			line := func(o ...string) string {
+				return fmt.Sprintf("DR %s %s %d %d %s %d %s", o[0], tot, hdr.Number.Uint64(), gap, before, len(vals), strings.Join(vf, " "))
+			}
+			for rep := 0; rep < 2; rep++ {
+				l := strings.TrimRight(line(randOrder(c.R, keys)), " ")
+				out, err := drv.Ask(l)
+				if err != nil {
+					return err
+				}
+				// canonicalise: for validators Go force-settled, the reward is not observable (the settlement overwrites the record); mask both sides
+				goFull, leanFull := goOut, out
+				if strings.HasPrefix(goOut, "ok") && strings.HasPrefix(out, "ok") {
+					parts := strings.Split(out, " | ")
+					if len(parts) == 3 {
+						rw, se := strings.Fields(parts[1]), strings.Fields(parts[2])
+						var grw, gse []string
+						for i, b := range befores {
+							v := st.GetValidatorByMainAddr(b.addr)
+							if settled[b.addr] {
+								gse = append(gse, "1")
+								grw = append(grw, "x")
+								if i < len(rw) {
+									rw[i] = "x"
+								}
+							} else {
+								gse = append(gse, "0")
+								if v == nil {
+									grw = append(grw, "gone")
+								} else {
+									grw = append(grw, new(big.Int).Sub(v.RewardsTotal, b.total).String())
+								}
+							}
+						}
+						goFull = goOut + " | " + strings.Join(grw, " ") + " | " + strings.Join(gse, " ")
+						leanFull = parts[0] + " | " + strings.Join(rw, " ") + " | " + strings.Join(se, " ")
+					}
+				}
+				if goFull != leanFull {
+					report("distributeRewards", &leanFail{l, goFull, leanFull})
+					break
+				}
+			}
+			res.TracesVsImpl++
+			res.Dist("lean-DR-" + strings.Fields(goOut)[0])
+		} else {
+			res.Dist("lean-DR-skipped-stat-not-consistent-with-records")
+		}
+	}
+
+	// ---- SORT -----------------------------------------------------------------------------------------------------
+	if sample {
+		st, _, err := parentState(node, blk, true)
+		if err != nil {
+			return err
+		}
+		list := st.GetValidators().List()
+		var goAddrs, f []string
+		// hand the model the validators in address order (any order will do: that is the theorem)
+		idx := make([]int, len(list))
+		for i := range idx {
+			idx[i] = i
+		}
+		sort.Slice(idx, func(a, b int) bool { return c.R.Bool() })
+		for _, v := range list {
+			goAddrs = append(goAddrs, new(big.Int).SetBytes(v.MainAddress().Bytes()).String())
+		}
+		for _, i := range idx {
+			v := list[i]
+			f = append(f, fmt.Sprintf("%d %s %s", v.Stake.Uint64(), v.Token, new(big.Int).SetBytes(v.MainAddress().Bytes())))
+		}
+		l := strings.TrimRight(fmt.Sprintf("SORT %d %s", len(list), strings.Join(f, " ")), " ")
+		out, err := drv.Ask(l)
+		if err != nil {
+			return err
+		}
+		res.TracesVsImpl++
+		res.Dist("lean-SORT")
+		if g := strings.Join(goAddrs, " "); out != g {
+			report("GetValidators order", &leanFail{l, g, out})
+		}
+	}
+
+	// ---- SL -------------------------------------------------------------------------------------------------------
+	if len(br.poolBefore) > 0 && !br.forged && !br.periodEnd && !br.sameKind {
+		pre, _, err := parentState(node, blk, false)
+		if err != nil {
+			return err
+		}
+		post, err := node.HeadState()
+		if err != nil {
+			return err
+		}
+		addrNum := func(a common.Address) string { return new(big.Int).SetBytes(a.Bytes()).String() }
+		type tuple struct{ tok, off, ex, ee, take string }
+		var vf, goVals []string
+		seen := map[string]string{}
+		ambiguous := false
+		vals := pre.GetValidatorsForUpdate()
+		for _, v := range vals {
+			a := v.MainAddress()
+			pv := post.GetValidatorByMainAddr(a)
+			if pv == nil {
+				ambiguous = true
+				break
+			}
+			take := new(big.Int).Sub(v.Token, pv.Token)
+			if take.Sign() < 0 {
+				ambiguous = true
+				break
+			}
+			b := func(x bool) int {
+				if x {
+					return 1
+				}
+				return 0
+			}
+			key := fmt.Sprintf("%s %d %d %d", v.Token, b(v.IsOffline()), b(v.Expelled), v.ExpelExpired)
+			total := new(big.Int)
+			if t, ok := br.slashTot[a]; ok {
+				total = t
+			}
+			tk := total.String() + " " + take.String()
+			if t, ok := seen[key]; ok && t != tk {
+				ambiguous = true
+			}
+			seen[key] = tk
+			vf = append(vf, fmt.Sprintf("%s %s %s", addrNum(a), key, tk))
+			goVals = append(goVals, fmt.Sprintf("%s:%s:%d:%d:%d", addrNum(a), pv.Token, b(pv.IsOffline()), b(pv.Expelled), pv.ExpelExpired))
+		}
+		if !ambiguous {
+			ids := func(evs []staking.Evidence) string {
+				var o []string
+				for _, e := range evs {
+					o = append(o, fmt.Sprint(s.evs[crypto.Keccak256Hash(e.Data)].id))
+				}
+				return strings.Join(o, ",")
+			}
+			var ef []string
+			for _, e := range br.poolBefore {
+				in := s.evs[crypto.Keccak256Hash(e.Data)]
+				sg := "-"
+				if in.valid {
+					sg = addrNum(chainkitAddrOfVal(in.vk))
+				}
+				wf := 1
+				if in.kind == "garbage" || in.kind == "one" {
+					wf = 0
+				}
+				ef = append(ef, fmt.Sprintf("%d %d %d %s", in.id, wf, in.round, sg))
+			}
+			var conf []staking.Evidence
+			if sd := blk.Header().SlashData; len(sd) > 0 {
+				if err := rlp.DecodeBytes(sd, &conf); err != nil {
+					return fmt.Errorf("builder's SlashData does not decode: %v", err)
+				}
+			}
+			nSlashLogs := br.slashLogs
+			l := fmt.Sprintf("SL %d %d %d %d %d %s %d %s", blk.NumberU64(), blk.NumberU64()+uint64(c.R.Intn(5)), yp.MaxEvidenceExpiredIn, yp.ExpelledRoundForDoubleSign,
+				len(vals), strings.Join(vf, " "), len(br.poolBefore), strings.Join(ef, " "))
+			out, err := drv.Ask(l)
+			if err != nil {
+				return err
+			}
+			// lean: ok c=.. p=.. logs=a:t,.. pen=.. vals=.. replay=same ; compare c, p, number of logs, vals, replay
+			canonLean := out
+			if f := strings.Fields(out); len(f) == 7 && f[0] == "ok" {
+				n := 0
+				if lg := strings.TrimPrefix(f[3], "logs="); lg != "" {
+					n = len(strings.Split(lg, ","))
+				}
+				canonLean = fmt.Sprintf("ok %s %s logs=%d %s %s", f[1], f[2], n, f[5], f[6])
+			}
+			goOut := fmt.Sprintf("ok c=%s p=%s logs=%d vals=%s replay=same", ids(conf), ids(br.poolAfter), nSlashLogs, strings.Join(goVals, ","))
+			res.TracesVsImpl++
+			res.Dist("lean-SL")
+			if len(conf) > 0 {
+				res.Dist("lean-SL-with-confirmed-evidence")
+			}
+			if canonLean != goOut {
+				report("slashing-replaySlashing", &leanFail{l, goOut, canonLean})
+			}
+		} else {
+			res.Dist("lean-SL-skipped-ambiguous")
+		}
+	}
+	return nil
+}
+
+func chainkitAddrOfVal(vk int) common.Address { return chainkit.Addr(chainkit.Key("val", vk)) }
+
+// replayLean re-asks the driver the recorded line and compares with the recorded Go answer (canonical forms are
+// recomputed by the same code paths only in a full run; here the raw answers are shown).
+func replayLean(c *vh.Ctx, body []string) (bool, string) {
+	if c.Driver == "" || len(body) < 2 {
+		return false, "no driver / incomplete L replay"
+	}
+	drv, err := vh.StartDriver(c.Driver)
+	if err != nil {
+		return false, err.Error()
+	}
+	defer drv.Close()
+	out, _ := drv.Ask(strings.TrimPrefix(body[0], "L "))
+	g := strings.TrimPrefix(body[1], "G ")
+	return !leanAgrees(out, g), "go=" + g + " lean=" + out
+}
+
+// leanAgrees compares a raw driver answer with a recorded canonical Go answer, field-wise on the fields Go recorded.
+func leanAgrees(lean, goOut string) bool {
+	if lean == goOut {
+		return true
+	}
+	lf, gf := strings.Fields(lean), strings.Fields(goOut)
+	if len(lf) == 0 || len(gf) == 0 || lf[0] != gf[0] {
+		return false
+	}
+	// SL answers: compare c=, p=, vals=, replay=
+	if strings.Contains(goOut, " c=") {
+		get := func(fs []string, p string) string {
+			for _, f := range fs {
+				if strings.HasPrefix(f, p) {
+					return f
+				}
+			}
+			return ""
+		}
+		for _, p := range []string{"c=", "p=", "vals=", "replay="} {
+			if get(lf, p) != get(gf, p) {
+				return false
+			}
+		}
+		return true
+	}
+	// DR answers with masked rewards
+	if strings.Contains(goOut, " | ") {
+		lp, gp := strings.Split(lean, " | "), strings.Split(goOut, " | ")
+		if len(lp) != 3 || len(gp) != 3 || lp[0] != gp[0] || lp[2] != gp[2] {
+			return false
+		}
+		lr, gr := strings.Fields(lp[1]), strings.Fields(gp[1])
+		if len(lr) != len(gr) {
+			return false
+		}
+		for i := range lr {
+			if gr[i] != "x" && gr[i] != lr[i] {
+				return false
+			}
+		}
+		return true
+	}
+	return false
+}
